@@ -4,7 +4,7 @@
    CPython side: Spec/Lnotab.v (readers addr2line / colines, assemblers asm_pre310 / asm_310). *)
 From PCD Require Import Base.PyBase Model.LineTable Spec.Lnotab Proofs.C10_Statements
   Proofs.LT_ExpandCollapse Proofs.LT_Lnotab Proofs.LT_310.
-From PCD Require Base.PyImp Gen.SrcLines Proofs.SrcLinesTie Proofs.SrcMapTie Proofs.SrcI2MTie Gen.SrcStage1 Proofs.SrcStage1Tie.
+From PCD Require Base.PyImp Gen.SrcLines Proofs.SrcLinesTie Proofs.SrcMapTie Proofs.SrcI2MTie Gen.SrcStage1 Proofs.SrcStage1Tie Gen.SrcLineMap Proofs.SrcLineMapTie.
 
 (* The property for co_lnotab: for every line program (3.7 or 3.8/3.9 assembler) and every code length n,
    the decoded mapping gives each instruction offset the line PyCode_Addr2Line gives, and re-encoding
@@ -147,6 +147,19 @@ Theorem C10_stage1_is_the_source :
   (forall items, PCD.Gen.SrcStage1.items_to_bytes items = items_to_bytes items).
 Proof. split; [exact SrcStage1Tie.bytes_to_items_tie | exact SrcStage1Tie.items_to_bytes_tie]. Qed.
 Print Assumptions C10_stage1_is_the_source.
+
+(* the LineMapping methods through which to_code_data and from_code_data use the codec: the two guards, the lookup and the
+   result of pop_additional_line (as the caller sees it), the two stores of add_additional_line, the in-place shift of
+   modify_line_offsets - of the current source - are the model's, for ALL mappings *)
+Theorem C10_line_mapping_methods_are_the_source :
+  (forall m k, SrcLineMapTie.seen (PCD.Gen.SrcLineMap.pop_additional_line m k) = SrcLineMapTie.seen (pop_additional_line m k)) /\
+  (forall m line offs k, PCD.Gen.SrcLineMap.add_additional_line m line offs k = add_additional_line m line offs k) /\
+  (forall m d, PCD.Gen.SrcLineMap.modify_line_offsets m d = modify_line_offsets m d).
+Proof.
+  split; [exact SrcLineMapTie.pop_additional_line_tie|].
+  split; [exact SrcLineMapTie.add_additional_line_tie | exact SrcLineMapTie.modify_line_offsets_tie].
+Qed.
+Print Assumptions C10_line_mapping_methods_are_the_source.
 
 (* non-vacuity of the tie: the translated loops really run (three splitting iterations here) *)
 Example C10_translated_loops_run :
